@@ -342,7 +342,7 @@ theorem covariance_error_idem (hid : M.Idem) (x y : List (Fl M)) (hxy : x.length
   field_simp
 
 /-- **Forward error of the two-pass `sample_covariance`** (divisor `n − 1`; standard model only). -/
-theorem sampleCovariance_error (x y : List (Fl M)) (hxy : x.length = y.length) (hn : 1 ≤ x.length)
+theorem sampleCovariance_error (x y : List (Fl M)) (hxy : x.length = y.length) (hn : 2 ≤ x.length)
     (h : (x.length + 5 : Nat) * M.u < 1) :
     ∃ c, sampleCovariance x y = some c ∧
       |c.val - comoment (vals x) (vals y) / ((x.length - 1 : Nat) : ℝ)| ≤
